@@ -131,7 +131,7 @@ func genEncImage(env *Env, key []byte) encImage {
 	}
 	switch nm {
 	case 4: // a well-formed table that does not fit the first sector (more than 255 regions)
-		n := 256 + r.Intn(200)
+		n := []int{255, 255, 254, 256, 256 + r.Intn(200)}[r.Intn(5)] // 255 regions fill the first sector exactly: still well-formed
 		regs = regs[:0]
 		for i := 0; i < n; i++ {
 			regs = append(regs, [2]uint32{uint32(2 * i), uint32(2*i + 1)})
